@@ -171,7 +171,9 @@ fn classify(list: &str, reference: &[RefArg]) -> Option<&'static str> {
         .filter(|t| matches!(t, proc_macro2::TokenTree::Punct(p) if p.as_char() == '|'))
         .count();
     // `|=` / `||` operators also contribute `|` puncts; each top-level closure head contributes exactly two
-    if pipes != 2 * v.toplevel_closures {
+    // The recorded defect pairs up `|` tokens across arguments, which takes at least two of them: a list with a single `|`
+    // cannot be affected by it, so a failure there is a different violation.
+    if pipes != 2 * v.toplevel_closures && pipes >= 2 {
         return Some("pipe-operator-outside-closure-head");
     }
     if v.type_generics_with_comma {
